@@ -230,5 +230,5 @@ ASSUMPTIONS = ["gaps between consecutive messages are < 300 days and 29 Feb is n
 
 def main(tier):
     n = 1500 if tier == "quick" else 60000
-    cap = 400 if tier == "quick" else 7200
+    cap = 400 if tier == "quick" else 1500
     return engine.run_check(PROP, "c11", tier, n, cap, "exploration", RULE, ASSUMPTIONS)
